@@ -51,6 +51,8 @@ def main():
     for job in req["jobs"]:
         if job["kind"] == "eval":
             res.append(_eval_job(H, job))
+        elif job["kind"] == "prepare":
+            res.append(H.prepare(req.get("tier", "quick")) if hasattr(H, "prepare") else None)
         else:
             if zobs is None:
                 zobs = {
